@@ -122,7 +122,7 @@ def gen_malformed_config(rng):
         base = t["path"]; t["path"] = base + "/"
         if rng.random() < 0.7 and base + "/sub" not in [x["path"] for x in cfg["targets"]]: cfg["targets"].append({"path": base + "/sub"})
         others = [x for x in cfg["targets"] if x is not t and not x["path"].startswith(base + "/")]
-        if others and rng.random() < 0.7: rng.choice(others).setdefault("uses", []).append(base + "/" + rng.choice(FILES))
+        if others and rng.random() < 0.7: rng.choice(others).setdefault("uses", []).append(rng.choice([base + "/" + rng.choice(FILES), base, base + "/"]))      # inside it, the directory itself without and with the slash
     elif kind == "dot": t["path"] = "./" + t["path"]
     elif kind == "dup": cfg["targets"].append({"path": t["path"]})
     elif kind == "double": t["path"] = t["path"].replace("/", "//", 1) if "/" in t["path"] else t["path"] + "//z"
